@@ -22,12 +22,16 @@ import (
 	"github.com/bfenetworks/bfe/bfe_server"
 )
 
-func execWire(hexraw string) string {
+func execWire(hexraw, seg string) string {
 	raw, ok := vh.UnHex(hexraw)
 	if !ok {
 		return "bad-op"
 	}
-	req, err := bfe_http.ReadRequest(bfe_bufio.NewReader(bytes.NewReader(raw)), bfe_http.MaxUriSize)
+	sr, ok := c25lib.NewSegReader(raw, seg)
+	if !ok {
+		return "bad-op"
+	}
+	req, err := bfe_http.ReadRequest(bfe_bufio.NewReader(sr), bfe_http.MaxUriSize)
 	if err != nil {
 		return "reject"
 	}
@@ -39,12 +43,21 @@ func execWire(hexraw string) string {
 	if err := outreq.Write(&buf); err != nil {
 		return "err " + vh.Hex(buf.Bytes())
 	}
-	return "ok " + vh.Hex(buf.Bytes())
+	// the head only: the body is C25's business
+	out := buf.Bytes()
+	if i := bytes.Index(out, []byte("\r\n\r\n")); i >= 0 {
+		out = out[:i+4]
+	}
+	return "ok " + vh.Hex(out)
 }
 
 func exec(op string) string {
-	if f := strings.Split(op, " "); len(f) == 2 && f[0] == "rdh" {
-		return execWire(f[1])
+	if f := strings.Split(op, " "); (len(f) == 2 || len(f) == 3) && f[0] == "rdh" {
+		seg := "-"
+		if len(f) == 3 {
+			seg = f[2]
+		}
+		return execWire(f[1], seg)
 	}
 	f := strings.Split(op, " ")
 	if len(f) != 3 || f[0] != "hop" {
@@ -107,29 +120,59 @@ func ows(r *vh.Rand) string { return r.Pick("", "", " ", "\t", "  ") }
 // value is close / keep-alive (any case) half of the time; later lines and list elements name fields that are present.
 func genWire(r *vh.Rand) string {
 	var b strings.Builder
-	b.WriteString("GET / " + r.Pick("HTTP/1.1", "HTTP/1.1", "HTTP/1.0") + "\r\n")
+	method := r.Pick("GET", "GET", "POST", "PUT", "DELETE")
+	proto := r.Pick("HTTP/1.1", "HTTP/1.1", "HTTP/1.0")
+	framing := r.Intn(6) // 0,1,2: none  3: Content-Length  4: chunked  5: Content-Length: 0 / repeated
+	if framing == 4 {
+		proto = "HTTP/1.1"
+	}
+	b.WriteString(method + " / " + proto + "\r\n")
 	line := func(n, v string) { b.WriteString(randCase(r, n) + ":" + ows(r) + v + ows(r) + "\r\n") }
 	line("Host", "a")
 	var present []string
 	for i, n := 0, r.Intn(4); i < n; i++ {
-		name := r.Pick("Accept", "Cookie", "X-Foo", "X-Bar", "X-Hop-Secret", "User-Agent", "X-Real-Ip")
+		name := r.Pick("Accept", "Cookie", "X-Foo", "X-Bar", "X-Hop-Secret", "User-Agent", "X-Real-Ip", "Cache-Control")
 		present = append(present, name)
 		line(name, r.Pick("1", "abc", "a, b", "x y"))
+		if r.Chance(1, 5) { // the same field again on another line, in another case
+			line(name, r.Pick("2", "z"))
+		}
+	}
+	if r.Chance(1, 6) {
+		line("Pragma", r.Pick("no-cache", "no-cache", "x", "No-Cache"))
 	}
 	tok := func() string {
+		t := r.Pick("x-hop-secret", "upgrade", "te", "Nope", "keep-alive", "close", "x-real-ip", "content-length", "trailer")
 		if len(present) > 0 && r.Chance(2, 3) {
-			return randCase(r, present[r.Intn(len(present))])
+			t = randCase(r, present[r.Intn(len(present))])
 		}
-		return r.Pick("x-hop-secret", "upgrade", "te", "Nope", "keep-alive", "close")
+		switch r.Intn(12) { // odd but legal-looking list syntax
+		case 0:
+			return "\"" + t + "\""
+		case 1:
+			return t + ";q=1"
+		case 2:
+			return ""
+		case 3:
+			return "\t" + t + " \t"
+		}
+		return t
 	}
 	nl := r.Intn(4)
 	for i := 0; i < nl; i++ {
 		var v string
 		switch {
 		case i == 0 && r.Chance(1, 2):
-			v = r.Pick("close", "Close", "CLOSE", "keep-alive", "Keep-Alive", "close, " + tok(), "")
+			v = r.Pick("close", "Close", "CLOSE", "keep-alive", "Keep-Alive", "close, "+tok(), "", ",", ", ,")
+		case r.Chance(1, 12): // very many tokens
+			var ts []string
+			for j := 0; j < 40+r.Intn(40); j++ {
+				ts = append(ts, "x-t"+itoa(j))
+			}
+			ts = append(ts, tok())
+			v = strings.Join(ts, r.Pick(",", ", ", " ,"))
 		default:
-			n := r.Range(1, 2)
+			n := r.Range(1, 3)
 			var ts []string
 			for j := 0; j < n; j++ {
 				ts = append(ts, ows(r)+tok())
@@ -144,10 +187,82 @@ func genWire(r *vh.Rand) string {
 		}
 	}
 	if r.Chance(1, 4) {
-		line(r.Pick("Keep-Alive", "Upgrade", "TE", "Proxy-Authorization"), r.Pick("timeout=5", "h2c", "trailers", "gzip", "Basic x"))
+		line(r.Pick("Keep-Alive", "Upgrade", "TE", "Proxy-Authorization", "Proxy-Connection"), r.Pick("timeout=5", "h2c", "trailers", "gzip", "Basic x"))
+	}
+	body := ""
+	switch framing {
+	case 3:
+		n := r.Range(1, 12)
+		body = string(r.Bytes(n))
+		line("Content-Length", itoa(n))
+		if r.Chance(1, 5) {
+			line("Content-Length", itoa(n))
+		}
+	case 4:
+		line("Transfer-Encoding", r.Pick("chunked", "chunked", "Chunked", "identity"))
+		if r.Chance(1, 3) {
+			line("Trailer", r.Pick("X-T", "x-t, x-u"))
+		}
+		if r.Chance(1, 4) {
+			line("Content-Length", "3") // must be dropped: chunked wins
+		}
+		data := string(r.Bytes(r.Range(1, 9)))
+		body = hexs(len(data)) + "\r\n" + data + "\r\n0\r\n" + r.Pick("", "X-T: 1\r\n") + "\r\n"
+	case 5:
+		line("Content-Length", "0")
+		if r.Chance(1, 3) {
+			line("Trailer", "X-T")
+		}
 	}
 	b.WriteString("\r\n")
-	return "rdh " + vh.Hex([]byte(b.String()))
+	raw := b.String() + body
+	seg := "-"
+	switch r.Intn(5) {
+	case 0:
+		seg = "1"
+	case 1, 2: // cuts after line ends, inside names/values, inside CRLF
+		var cuts []string
+		last := 0
+		for i := 0; i < r.Range(1, 6); i++ {
+			last += r.Range(1, 1+len(raw)/3)
+			if last >= len(raw) {
+				break
+			}
+			cuts = append(cuts, itoa(last))
+		}
+		if len(cuts) > 0 {
+			seg = "c" + strings.Join(cuts, ",")
+		}
+	}
+	if seg != "-" && r.Chance(1, 3) {
+		seg = "e" + seg
+	}
+	return "rdh " + vh.Hex([]byte(raw)) + " " + seg
+}
+
+func itoa(n int) string {
+	if n == 0 {
+		return "0"
+	}
+	s := ""
+	for n > 0 {
+		s = string(rune('0'+n%10)) + s
+		n /= 10
+	}
+	return s
+}
+
+func hexs(n int) string {
+	const d = "0123456789abcdef"
+	if n == 0 {
+		return "0"
+	}
+	s := ""
+	for n > 0 {
+		s = string(d[n%16]) + s
+		n /= 16
+	}
+	return s
 }
 
 func gen(r *vh.Rand) string {
@@ -212,8 +327,12 @@ func pre(emit func(string), thorough bool) {
 		"GET / HTTP/1.1\r\nHost: a\r\nConnection: keep-alive\r\nX-Hop-Secret: 1\r\nConnection: X-HOP-SECRET , upgrade\r\nUpgrade: h2c\r\n\r\n",
 		"GET / HTTP/1.0\r\nHost: a\r\nconnection: Close\r\nconnection: x-foo\r\nx-foo: 1\r\nAccept: */*\r\n\r\n",
 		"GET / HTTP/1.1\r\nHost: a\r\nConnection: close, x-hop-secret\r\nX-Hop-Secret: 1\r\n\r\n",
+		"POST / HTTP/1.1\r\nHost: a\r\nContent-Length: 3\r\nConnection: content-length, x-foo\r\nX-Foo: 1\r\n\r\nabc",
+		"POST / HTTP/1.1\r\nHost: a\r\nTransfer-Encoding: chunked\r\nContent-Length: 3\r\nTrailer: X-T\r\nPragma: no-cache\r\nConnection: \"x-foo\", x-bar;q=1,,\tx-baz\r\nX-Baz: 1\r\nX-Bar: 1\r\n\r\n3\r\nabc\r\n0\r\nX-T: 1\r\n\r\n",
 	} {
-		emit("rdh " + vh.Hex([]byte(raw)))
+		emit("rdh " + vh.Hex([]byte(raw)) + " -")
+		emit("rdh " + vh.Hex([]byte(raw)) + " 1")
+		emit("rdh " + vh.Hex([]byte(raw)) + " ec7,19,20,33")
 	}
 	H := func(kv ...string) string {
 		h := map[string][]string{}
@@ -222,12 +341,12 @@ func pre(emit func(string), thorough bool) {
 		}
 		return "hop " + c25lib.HeaderString(h) + " 1"
 	}
-	emit(H("Connection", "X-Foo", "X-Foo", "1"))                // header named by a Connection token
-	emit(H("Connection", "", "Connection", "close"))            // empty first value hides the rest
-	emit(H("Upgrade", "", "Upgrade", "websocket"))              //
-	emit(H("Te", "trailers", "Te", "gzip"))                     // only the first TE value is looked at
-	emit(H("Te", "trailers"))                                   // kept, allowed
-	emit(H("Te", "gzip"))                                       // removed
+	emit(H("Connection", "X-Foo", "X-Foo", "1"))     // header named by a Connection token
+	emit(H("Connection", "", "Connection", "close")) // empty first value hides the rest
+	emit(H("Upgrade", "", "Upgrade", "websocket"))   //
+	emit(H("Te", "trailers", "Te", "gzip"))          // only the first TE value is looked at
+	emit(H("Te", "trailers"))                        // kept, allowed
+	emit(H("Te", "gzip"))                            // removed
 	emit(H("Connection", "close", "Keep-Alive", "timeout=5", "Proxy-Authorization", "Basic x", "Upgrade", "h2c", "Transfer-Encoding", "chunked", "Trailer", "X-T", "Proxy-Authenticate", "x"))
 	emit(H("Trailers", "x"))
 	emit(H("Connection", "X-Real-Ip, x-forwarded-for, X-Foo", "X-Real-Ip", "1.2.3.4", "X-Forwarded-For", "5.6.7.8", "X-Foo", "1")) // BFE's own headers are exempt
